@@ -90,13 +90,13 @@ Qed.
 
 Theorem str_equal_spec : forall rows s, m_streq rows s = s_streq rows s.
 Proof.
-  intros rows s. unfold m_streq, s_streq. rewrite starts_of_from.
+  intros rows s. unfold m_streq, s_streq, m_streq_mask, m_streq_index. rewrite starts_of_from.
   pose proof (streq_gen s rows [] []) as H. simpl in H. rewrite app_nil_r in H. exact H.
 Qed.
 
 Theorem str_equal2_spec : forall rows l, m_streq2 rows l = s_streq2 rows l.
 Proof.
-  unfold m_streq2, s_streq2.
+  unfold m_streq2, s_streq2, m_streq_mask.
   induction rows as [|a rows IH]; intros [|b l]; try reflexivity.
   simpl map2. destruct (len a =? len b) eqn:Hl.
   - simpl. f_equal; [|apply IH]. apply all_true_map2_eqb. apply Z.eqb_eq in Hl. unfold len in Hl. lia.
@@ -172,7 +172,7 @@ Qed.
 
 Theorem split_spec : forall s sep, m_split s sep = split_on sep s.
 Proof.
-  intros s sep. unfold m_split. rewrite map_app. cbn [map]. rewrite set_last_app.
+  intros s sep. unfold m_split, m_split_first_len. rewrite map_app. cbn [map]. rewrite set_last_app.
   unfold flatnonzero.
   set (idx := flatnonzero_from 0 (map (fun x => x =? sep) s ++ [true])).
   assert (Hl : match diff (0 :: idx) with _ :: r => (nthZ idx 0 + 1) :: r | [] => [] end = diff (-1 :: idx)).
@@ -290,7 +290,7 @@ Qed.
 Theorem join_spec : forall fill rows sep keep_last,
   m_join_fill fill rows sep keep_last = s_join rows sep keep_last.
 Proof.
-  intros fill rows sep k. unfold m_join_fill, s_join.
+  intros fill rows sep k. unfold m_join_fill, s_join, m_join_new_len, m_join_body_len, m_join_sep_pos, m_join_drop.
   rewrite starts_of_from, idxA_unfold, !idxB_unfold, length_idxB.
   set (total := sumZ (map (fun l => l + 1) (map len rows))).
   assert (Hsum : 0 <= total).
@@ -299,7 +299,7 @@ Proof.
   assert (Hd : len d = total).
   { unfold d, len. rewrite firstn_length, app_length, repeat_length. lia. }
   pose proof (join_gen sep rows [] d Hd) as H. change (len (@nil Z)) with 0 in H. simpl app in H.
-  rewrite H. reflexivity.
+  rewrite H. destruct k; reflexivity.
 Qed.
 
 (* ================= ragged_slice ================= *)
